@@ -43,7 +43,7 @@ def model(res, work, tier, weak):
         vlib.mc_expect_violation(work, "MCM3Reporter.tla", cfg(work, "w_%s.cfg" % const, invariants=inv, **ov), inv, const, res, timeout=900)
 
 
-def sched_runs(res, work, tier, seed, clauses, parts=5, only=None, matcher=None):
+def sched_runs(res, work, tier, seed, clauses, parts=5, only=None, matcher=None, step_level=False):
     vlib.build_harness()
 
     def one(i):
@@ -60,6 +60,8 @@ def sched_runs(res, work, tier, seed, clauses, parts=5, only=None, matcher=None)
         fails, r = vlib.tlc_trace(d, "MCM3ObsTrace.tla", "M3ObsTrace.cfg", os.path.join(d, "trace.ndjson"), meta["events"], timeout=3000)
         if r["violated"] or not r["consumed"]:
             raise vlib.Infra("M3ObsTrace did not consume the trace of part %d: %s\n%s" % (i, r["violated"], r["out"][-3000:]))
+        if step_level and meta.get("step_events", 0) > 0:
+            step_validate(res, d, meta["step_events"], selftest=(i == 0))
         return d, meta, fails, r
 
     with ThreadPoolExecutor(max_workers=min(parts, 6)) as ex:
@@ -102,3 +104,43 @@ def sched_runs(res, work, tier, seed, clauses, parts=5, only=None, matcher=None)
     if other:
         res.extra["other_property_observations"] = other
     return outs
+
+
+_RE_CONSUMED = __import__("re").compile(r'<<"CONSUMED", (\d+), (\d+)>>')
+
+
+def _run_steps(d):
+    r = vlib.tlc(d, "MCM3StepTrace.tla", "M3StepTrace.cfg", workers=1, timeout=3000, deque=True)
+    m = _RE_CONSUMED.search(r["out"])
+    if not m:
+        raise vlib.Infra("M3StepTrace did not report how much of the step trace it consumed (rc=%d)\n%s" % (r["rc"], r["out"][-3000:]))
+    return int(m.group(1)), int(m.group(2)), r
+
+
+def step_validate(res, d, nlines, selftest=False):
+    """Step-level conformance: every granted step of the handshake scenarios must be the action of M3Reporter.tla for that
+    thread and label, from a state with the logged projection.  A rejected step is DRIFT (recorded, not a verdict)."""
+    consumed, total, r = _run_steps(d)
+    res.add_trace_run("M3StepTrace (every step of the handshake scenarios replayed through M3Reporter.tla)", r, 0, total)
+    res.states += r["distinct"]; res.transitions += r["generated"]
+    res.extra["step_level_lines"] = res.extra.get("step_level_lines", 0) + consumed
+    lines = vlib.read_lines(os.path.join(d, "steps.ndjson"))
+    if consumed < total:
+        bad = lines[consumed] if consumed < len(lines) else ""
+        res.drift.append(dict(module="M3StepTrace", consumed=consumed, total=total, rejected_step=bad))
+        print("DRIFT (not a verdict): step %d of the M3 handshake trace is not an action of M3Reporter.tla from the logged state: %s" % (consumed + 1, bad))
+    elif selftest and total > 200:
+        # the binding is demonstrated on every run: one corrupted projection and one removed step must be rejected at that line
+        good = os.path.join(d, "steps.good.ndjson")
+        os.rename(os.path.join(d, "steps.ndjson"), good)
+        i = next(k for k in range(total // 3, total) if '"pending"' in lines[k])
+        o = json.loads(lines[i]); o["pending"] += 1
+        open(os.path.join(d, "steps.ndjson"), "w").write("\n".join(lines[:i] + [json.dumps(o)] + lines[i + 1:]) + "\n")
+        c1, _, _ = _run_steps(d)
+        j = next(k for k in range(total // 2, total) if '"m3r_done"' in lines[k])
+        open(os.path.join(d, "steps.ndjson"), "w").write("\n".join(lines[:j] + lines[j + 1:]) + "\n")
+        c2, _, _ = _run_steps(d)
+        os.rename(good, os.path.join(d, "steps.ndjson"))
+        if c1 != i or c2 != j:
+            raise vlib.Infra("binding self-test failed: a corrupted projection at line %d was consumed up to %d, a removed step at line %d up to %d" % (i + 1, c1, j + 1, c2))
+        res.extra["binding_selftest"] = "corrupted projection rejected at line %d, removed step rejected at line %d" % (i + 1, j + 1)
